@@ -29,6 +29,9 @@ def run(ctx):
         on, oa, om = outcome_of(n), outcome_of(a), outcome_of(am)
         if on[0] in ("CRASH", "PANIC", "NILNIL") or oa[0] in ("CRASH", "PANIC", "NILNIL"):
             stats["crash"] += 1
+            if crash_explained(ctx, n, a):
+                stats["crashes_explained_by_known_findings"] = stats.get("crashes_explained_by_known_findings", 0) + 1
+                continue
             ctx.add_broken("correspondence: a pattern crashed an entry point (see C14): %r" % p, "nfa=%s ast=%s" % (n[:200], a[:200]))
             continue
         if on[0] != oa[0] or (on[0] != "OK" and on != oa):
